@@ -124,14 +124,15 @@ theorem second_machine_state {P : Params κ} (hG : Good P) (cd : Codec κ) (hdig
     (sR : Remote.State) (hcl : C08.RemoteClosed sR) (hcar : RCarries (RemoteWritesOK P cd) sR)
     (hpub : Published P cd defs order (build P cfg wA order) sR)
     (mB : Remote.Mid) (hempty : ∀ ns k, sR.loc mB ns k = none)
+    (hnt : ∀ l ∈ order, Remote.viewTaint sR mB l = false)
     (fsB : FS) (hsrc : ∀ p, (∀ l ∈ order, ∀ t, defs l = some t → p ∉ outPaths t) → fsB p = wA.fs p) :
-    let sB := build P cfg ⟨defs, fsB, viewCache cd (fun _ => false) sR mB⟩ order
+    let sB := build P cfg ⟨defs, fsB, viewCache cd (Remote.viewTaint sR mB) sR mB⟩ order
     executed sB = [] ∧ succeeded sB order = true ∧
     ∀ l ∈ order, ∀ t, defs l = some t → ∀ p ∈ outPaths t, sB.fs p = (build P cfg wA order).fs p := by
   intro sB
   subst hdA
   let fA := build P cfg wA order
-  let vc : Cache κ := viewCache cd (fun _ => false) sR mB
+  let vc : Cache κ := viewCache cd (Remote.viewTaint sR mB) sR mB
   have hview : ∀ ns k, canGet sR mB ns k = sR.remote ns k := by
     intro ns k; simp [canGet, hempty ns k]
   -- the view is a sound cache
@@ -154,7 +155,7 @@ theorem second_machine_state {P : Params κ} (hG : Good P) (cd : Codec κ) (hdig
     intro l hl
     obtain ⟨t, ts, ohs, r, ht, hts, hk, hohs, hres, hoh, hv, hb, hta, hch⟩ := hsetA l hl
     obtain ⟨b, hrb, hdec, hrefs⟩ := hpub l hl t ohs r ht hohs hres
-    refine ⟨t, ts, ohs, r, ht, hts, hk, hohs, ?_, hoh, hv, ?_, rfl, hch⟩
+    refine ⟨t, ts, ohs, r, ht, hts, hk, hohs, ?_, hoh, hv, ?_, hnt l hl, hch⟩
     · show vc.res (P.K (keyState t fA.fs ohs)) = some r
       simp only [vc, viewCache, hview]
       rw [hrb]
@@ -186,8 +187,10 @@ theorem second_machine_state {P : Params κ} (hG : Good P) (cd : Codec κ) (hdig
     and without remote cache, remote faults) whose writes are sound (target results come from sound caches — C01 on every
     publishing machine —, blobs are stored under the digest of their content — C07) and that contains, for every target of
     A's successful build of `order`, a tee `Set` of A's result that reached the remote tier and was not replaced afterwards
-    by another value. Machine B has an empty local cache, addresses the same namespace (same keys: `cd.encK`) and has the
-    same sources. Then B's build of `order` over its read-through view of the store
+    by another value. Machine B has an empty local cache, addresses the same namespace (same keys: `cd.encK`), has the
+    same sources, and **sees no taint marker for a target of the order** — taint markers are written to and looked up in both
+    tiers (`Remote.viewTaint`), so a marker another machine set, or one whose remote `Delete` failed, makes B execute that
+    target (`tainted_target_is_executed_not_served`, `stale_taint_witness`). Then B's build of `order` over its read-through view of the store
       * executes no command,
       * succeeds,
       * and leaves every declared output byte-identical to A's.
@@ -206,8 +209,9 @@ theorem second_machine {P : Params κ} (hG : Good P) (cd : Codec κ) (hdig : ∀
         (∀ e ∈ post, WritesOnly .target (cd.encK (P.K (keyState t (build P cfg wA order).fs ohs))) b e) ∧
         cd.decR b.content = some r ∧ b.refs = r.outs.map (fun ov => cd.dig ov.2))
     (mB : Remote.Mid) (hempty : ∀ ns k, sR.loc mB ns k = none)
+    (hnt : ∀ l ∈ order, Remote.viewTaint sR mB l = false)
     (fsB : FS) (hsrc : ∀ p, (∀ l ∈ order, ∀ t, defs l = some t → p ∉ outPaths t) → fsB p = wA.fs p) :
-    let sB := build P cfg ⟨defs, fsB, viewCache cd (fun _ => false) sR mB⟩ order
+    let sB := build P cfg ⟨defs, fsB, viewCache cd (Remote.viewTaint sR mB) sR mB⟩ order
     executed sB = [] ∧ succeeded sB order = true ∧
     ∀ l ∈ order, ∀ t, defs l = some t → ∀ p ∈ outPaths t, sB.fs p = (build P cfg wA order).fs p := by
   have hcl : C08.RemoteClosed sR := C08.remote_closed es sR hrun
@@ -218,7 +222,27 @@ theorem second_machine {P : Params κ} (hG : Good P) (cd : Codec κ) (hdig : ∀
     refine ⟨b, ?_, hdec, hrefs⟩
     rw [he] at hrun
     exact published_of_trace .fixed Remote.init sR pre post p .target _ b lst ok hrun hpost
-  exact second_machine_state hG cd hdig cfg defs order hwf hpl wA hdA hsA hokA sR hcl hcar hpub mB hempty fsB hsrc
+  exact second_machine_state hG cd hdig cfg defs order hwf hpl wA hdA hsA hokA sR hcl hcar hpub mB hempty hnt fsB hsrc
+
+/-- a target the machine sees tainted is never served from the cache: the decision falls through to execution -/
+theorem tainted_target_is_executed_not_served (P : Params κ) (cfg : Cfg) (t : Target) (k : κ) (s : BState κ)
+    (h : s.cache.taint t.label = true) : tryHit P cfg t k s = none := by
+  unfold tryHit
+  split
+  · rfl
+  · simp [h]
+
+/-- **Stale remote taint (reviewer's trace).** A taints `x` (tee `Set`: marker in A's local cache and in the remote), rebuilds
+    it and clears the taint; the local `Delete` succeeds, the remote `Delete` fails (the executor only logs that). Machine B
+    with an empty local cache then *sees `x` tainted* — and, by the previous theorem, executes it instead of restoring it.
+    This is why `second_machine` requires B's taint view to be empty on the selected targets. The check replays this history
+    on the real `TaintCache` + `RemoteWrapper`. (Verdict: not a violation of C08 — a remote error degrading to a re-execution
+    is allowed by its last clause; whether a taint that survives its target's rebuild violates C13 is the taint owner's call.) -/
+theorem stale_taint_witness :
+    (Remote.run .fixed Remote.init
+      [.proc 1 0, .taintSet 1 [120] true true true, .taintDelete 1 [120] false true false, .proc 2 1]).map
+        (fun s => (Remote.viewTaint s 0 [120], Remote.viewTaint s 1 [120])) = some (true, true) := by
+  decide
 
 section Example2
 /-- a key type with an injective key function: the key *is* the key-state -/
@@ -321,7 +345,6 @@ theorem restoreDir_refines_exec_restore (H : Bytes → Digest) (serD : Directory
 theorem restoreFile_refines_exec_restore (H : Bytes → Digest) (fs0 fs : Entry) (q : Grog.Path) (n : Name) (id : Bytes)
     (b : Bytes) (x : Bool) (cas0 : Cas)
     (hsrc : fs0.get (q ++ [n]) = some (.file b x)) (hpar : Clear fs q)
-    (hdst : ∀ e, fs.get (q ++ [n]) = some e → ∃ b' x', e = .file b' x')
     (hH : ∀ b' x', fs.get (q ++ [n]) = some (.file b' x') → H b' = H b → b' = b)
     (comps : Exec.Path → Grog.Path) (canon : Entry → Val) (out : Exec.Path) (hout : comps out = q ++ [n])
     (cas : Cas) (hcas : cas.get (H b) = some b) :
@@ -330,7 +353,7 @@ theorem restoreFile_refines_exec_restore (H : Bytes → Digest) (fs0 fs : Entry)
       ∀ p, (p = out ∨ Diverge (q ++ [n]) (comps p)) →
         absFS comps canon fs' p = writeOuts (absFS comps canon fs) [(⟨false, out⟩, canon (.file b x))] p := by
   refine ⟨by simp [absFS, hout, hsrc], ?_⟩
-  obtain ⟨_, _, hres⟩ := C06.restoreFile_writeFile H fs0 fs q n id b x cas0 hsrc hpar hdst hH
+  obtain ⟨_, _, hres⟩ := C06.restoreFile_writeFile H fs0 fs q n id b x cas0 hsrc hpar hH
   obtain ⟨fs', hr, hget⟩ := hres cas hcas
   refine ⟨fs', hr, ?_⟩
   intro p hp
